@@ -99,6 +99,9 @@ def run_for(prop, run=None, with_apalache=True, strict=False):
                                    lambda: apalache(module, files, label, args, expect)))
     if run is not None:
         run.cov.setdefault("deductive", []).extend(done)
+        for d in done:
+            print("deductive:", d["tool"], d.get("module"), d.get("check", ""),
+                  f"{d['obligations']} obligations proved" if "obligations" in d else d.get("result"))
     return done
 
 
